@@ -354,7 +354,7 @@ def handle (ss : Session) : P (Session × String) := do
     pure (ss, if ss.cfg.wfB then "wf" else if ss.cfg.rt.isSome then "rt" else "not-wf")
   | "wfx" => do
     -- the further hypotheses of the liveness theorems (shapes; flat configuration with a ranking)
-    pure (ss, s!"shape={ss.cfg.shapeB} push={ss.cfg.pushB} pull={ss.cfg.pullB} flat={ss.cfg.flatB ss.cfg.zeroRank}")
+    pure (ss, s!"shape={ss.cfg.shapeB} push={ss.cfg.pushB} pull={ss.cfg.pullB} keys={ss.cfg.pushKeysB} flat={ss.cfg.flatB ss.cfg.zeroRank}")
   | "state" => do
     -- debugging aid: control state of one simulator
     let p ← nat
